@@ -109,6 +109,19 @@ package media
 //@   modifies m.count, mapAll(&m.Map), ghostAll("misc"), ghostAll("held")
 //@   ensures old(mapAt(&m.Map, cid)) == nil ==> c == nil && m.count == old(m.count)
 //@   ensures old(mapAt(&m.Map, cid)) != nil ==> c == old(mapAt(&m.Map, cid)).(*consumption) && mapAt(&m.Map, cid) == nil && m.count == old(m.count) - 1
+// closing a stream releases its consumers ONE BY ONE inside the walk: each visited entry is deleted and closed by the
+// callback, and nothing removes entries wholesale - an entry stored while the walk is running (a consumer attaching at that
+// very moment) is either visited, or left in the set for the late-attach check of startConsume to take off and close.
+// The walk itself (sync.Map.Range and its callback) is assumed; what is checked is that this function calls nothing else
+// that touches the set
+//@ extern func (m *sync.Map) Range(f func(key, value interface{}) bool) ()
+//@   modifies mapAll(m), ghostAll("misc"), ghostAll("signals"), anyFld((*consumption)(nil).closed)
+//@ func (m *consumptions) RemoveAndCloseAll() ()
+//@   variant concrete
+//@   calls_only (*sync.Map).Range, sync/atomic.StoreInt32, (*sync.Map).Delete, (*github.com/cnotch/ipchub/media.consumption).Close
+//@   requires m != nil
+//@   modifies m.count, mapAll(&m.Map), ghostAll("misc"), ghostAll("signals"), anyFld((*consumption)(nil).closed)
+//@   ensures m.count == 0
 //@ func (m *consumptions) Count() (n int)
 //@   variant concrete
 //@   requires m != nil
@@ -204,7 +217,9 @@ package media
 //@ func (s *Stream) startConsume(consumer Consumer, packetType PacketType, extra string, useGopCache bool) (cid CID)
 //@   requires s != nil && s.cache != nil && s.flvCache != nil && s.logger != nil && 0 <= ghostInt(&s.consumptions, "n") && ghostInt(&s.consumptions, "n") < 1<<30 && 0 <= ghostInt(&s.flvConsumptions, "n") && ghostInt(&s.flvConsumptions, "n") < 1<<30
 //@   modifies all()
-//@   assert[call:Add] true
+// the consumer becomes visible with the FIXED backlog limit the property names (1000 packets), whatever was replayed
+//@   local c *consumption
+//@   assert[call:Add] c != nil && c.maxQLen == 1000 && !c.discarding
 // attaching to a stream that has already ended (its close ran RemoveAndCloseAll before this consumer was added) must not
 // leave the consumer attached for ever: it is taken off again at once (ghost "removed": removals attempted on the sets)
 //@   ensures old(s.status) != StreamOK && s.status == old(s.status) && !(packetType == FLVPacket && old(s.flvMuxer) == nil) ==> ghostInt(&s.consumptions, "removed") + ghostInt(&s.flvConsumptions, "removed") == old(ghostInt(&s.consumptions, "removed") + ghostInt(&s.flvConsumptions, "removed")) + 1
